@@ -23,4 +23,6 @@ CONFIG = {
  'C13': dict(level='proof', tags={'C13'}, owns_crash=['print'], profiles=[('print', 1200, 30000), ('any', 800, 10000)], assumptions=[A_MODEL, A_SIZE, A_LIBC]),
  'C14': dict(level='proof', tags={'C14'}, profiles=[('print', 1500, 40000)], assumptions=[A_MODEL, A_SIZE, A_LIBC]),
  'C16': dict(level='proof', tags={'C16'}, owns_crash=['timeout'], profiles=[('any', 3000, 60000), ('verify', 2000, 60000), ('stream', 1500, 40000)], assumptions=[A_MODEL, A_SIZE]),
+ 'C17': dict(level='proof', tags=set(), profiles=[], special='c17'),
+ 'C18': dict(level='translation_validation', tags=set(), profiles=[], special='c18'),
 }
